@@ -368,6 +368,10 @@ def observe(seed, tier):
                     else:
                         hit("GRAPH", "the Dependencies lists in the generated code have edges the model's job graph lacks: generated %s, model %s" % (gs, ws),
                             {"flow": f.model_line(), "go_function": f.name(), "generated": got, "model": want})
+                    extra_pred = {j: sorted(set(gs[j]) - set(ws.get(j, []))) for j in gs if j.startswith("q") and set(gs[j]) - set(ws.get(j, []))}
+                    if extra_pred:
+                        hit("C11", "the predicate job waits for jobs that provide none of its own inputs (job: extra dependencies) %s: the predicate is not evaluated as soon as its own inputs are available" % extra_pred,
+                            {"flow": f.model_line(), "go_function": f.name(), "generated": got, "model": want, "module": mod})
             summary["executions"] += 1
             summary["dist"]["scenario"][run["label"]] = summary["dist"]["scenario"].get(run["label"], 0) + 1
             for p, msgs in compare(f, run, pred).items():
